@@ -427,7 +427,11 @@ class Gen:
         inner = sc + [(i, ity)]
         self.writable.add(i)
         body = self.block(inner, d + 1, True)
-        kind = self.pick(["for", "for", "for", "while", "forunchecked"])
+        kind = self.pick(["for", "for", "for", "while", "forunchecked", "forever"])
+        if kind == "forever":
+            # no condition at all (and, every other time, no initialisation either)
+            head = self.pick(["for (;;) {", "for (%s %s = 0;; %s) {" % (ity, i, step), "for (;; %s) {" % step if False else "for (;;) {"])
+            return pre + ([] if "=" in head else ["%s %s = 0;" % (ity, i)]) + [head] + ["    " + s for s in body] + ["    if (%s %s %s) break;" % (i, op, bound), "}"]
         if kind == "for":
             init = self.pick(["%s %s = 0" % (ity, i), "%s %s" % (ity, i), "%s %s = 1" % (ity, i)])
             return pre + ["for (%s; %s %s %s; %s) {" % (init, i, op, bound, step)] + ["    " + s for s in body] + ["}"]
@@ -522,6 +526,11 @@ class Gen:
         else:
             style = self.pick(["plain", "camel", "camel", "under"])
         nm = self.fresh(style) if kind == "function" else ""
+        if kind == "function":
+            # function names need not be unique: overloads in one contract, the same helper name in several contracts
+            if self.fn_names and self.chance(0.15):
+                nm = self.pick(self.fn_names)
+            self.fn_names.append(nm)
         ps, sc = self.params(vis in ("public", "external") and kind == "function")
         mut = self.pick(["", "", "", "payable", "view"]) if vis in ("public", "external", "") else self.pick(["", "", "view"])
         mods = []
@@ -548,6 +557,21 @@ class Gen:
                 if need or self.chance(0.0):
                     self.writable.add(v)
                     body.append("%s = %s;" % (v, self.literal(ty)))
+        if kind == "constructor" and self.chance(0.35):
+            # tuple assignments in a constructor: state variables next to parameters, locals, holes, variables of other types
+            svars = [v for v, t in ctx["vars"] if (t.startswith("uint") or t.startswith("int")) and v in self.writable]
+            others = [v for v, t in sc if t.startswith("uint")] + [v for v, t in ctx["vars"] if t in ("IERC20", "address", "bool") and v in self.writable]
+            if svars:
+                a = self.pick(svars)
+                if others and self.chance(0.7):
+                    b = self.pick(others)
+                    tb = dict(list(ctx["vars"]) + sc)[b]
+                    rhs = {"IERC20": "IERC20(address(0))", "address": "msg.sender", "bool": "true"}.get(tb, "2")
+                    body.append(self.pick(["(%s, %s) = (1, %s);" % (a, b, rhs), "(%s, %s) = (%s, 1);" % (b, a, rhs)]))
+                else:
+                    loc = self.fresh("num")
+                    body.append("uint256 %s;" % loc)
+                    body.append(self.pick(["(%s, %s) = (3, 4);" % (a, loc), "(, %s) = (5, 6);" % a, "(%s, ) = (7, 8);" % a, "(%s, %s) = (%s, %s);" % (loc, a, a, loc)]))
         if mut == "view":
             # no state writes in a view function: locals only
             self.writable = {v for v in self.writable if v not in dict(ctx["vars"])}
@@ -685,6 +709,7 @@ class Gen:
         out.append("")
         self.structs, self.events, self.errors, self.tokens, self.bases = [], [], [], [], []
         self.struct_fields, self.named_errors, self.external_fns = {}, [], []
+        self.fn_names = []
         self.types = {}
         self.writable = set()
         self.usesafe = self.chance(0.35)
